@@ -245,3 +245,121 @@ Proof.
       [|unfold step; cbn [step_gen]; rewrite Hp; reflexivity..].
     symmetry. now apply tie_set_total_bad.
 Qed.
+
+(* ---- what lift does, spelled out: the code-visible fields, the result, and every ghost field ---- *)
+Theorem lift_spec s t kd l g k o :
+  let s' := fst (lift s t kd (l, g, k, o)) in
+  core s' = mkh false None 0 [] (fun _ => Sem.FPending) 0 (h_total k) (h_borrowers k) (h_queue k) (h_evset k) (h_nev k) /\
+  snd (lift s t kd (l, g, k, o)) = match res_of o with Some x => x | None => RRejected end /\
+  phase_of s' = match o, l_bor l, l_ev l with
+                | OSuspend AwYield, Some b, _ => upd (phase_of s) t (FastYield b)
+                | OSuspend AwEvent, Some b, Some e => upd (phase_of s) t (Waiting b e)
+                | _, _, _ => phase_of s
+                end /\
+  fcanc s' = match o with OSuspend AwEvent => upd (fcanc s) t false | _ => fcanc s end /\
+  mustc s' = mustc s /\
+  held s' = match kd with
+            | KAcquire b => if returned o then b :: held s else held s
+            | KRelease b => if returned o then remove_one b (held s) else held s
+            | KSetter => held s
+            end /\
+  resv s' = g_grant g ++ match o, l_bor l with OSuspend AwYield, Some b => b :: resv s | _, _ => resv s end /\
+  arrivals s' = arrivals s ++ g_arr g /\
+  tainted s' = match kd with
+               | KRelease b => if returned o then tainted s || mem b (resv s) else tainted s
+               | _ => tainted s
+               end.
+Proof.
+  cbn. repeat split. unfold ghost_app. destruct (g_arr g); [now rewrite app_nil_r | reflexivity].
+Qed.
+
+(* ---- the C10 clauses for runs of the generated segments (by rewriting with gstep_eq_step) ---- *)
+Lemma final_gstep ops : forall s, final (gstep lim_prog) s ops = final step s ops.
+Proof.
+  induction ops as [|o r IH]; intros s; [reflexivity|].
+  cbn. rewrite gstep_eq_step. apply IH.
+Qed.
+
+Lemma greach_run v ops : reach v (final (gstep lim_prog) (init v) ops).
+Proof. exists ops. apply final_gstep. Qed.
+
+Theorem gen_grant_only_if_free : forall s o,
+  let s' := fst (gstep lim_prog s o) in
+  (forall b, In b (borrowers s') -> In b (borrowers s)) \/ xle (length (borrowers s')) (total s').
+Proof. intros s o. rewrite gstep_eq_step. apply lim_grant_only_if_free. Qed.
+
+Theorem gen_conservation : forall v ops,
+  let s := final (gstep lim_prog) (init v) ops in
+  tainted s = false ->
+  NoDup (borrowers s) /\
+  (forall b, In b (borrowers s) <-> In b (held s) \/ In b (resv s)) /\
+  (forall b, In b (held s) -> ~ In b (resv s)) /\
+  length (borrowers s) = length (held s) + length (resv s).
+Proof.
+  intros v ops s Ht.
+  destruct (lim_counts_true v s (greach_run v ops) Ht) as (H1 & H2 & H3 & H4 & _).
+  exact (conj H1 (conj H2 (conj H3 H4))).
+Qed.
+
+Theorem gen_fifo : forall v ops,
+  let s := final (gstep lim_prog) (init v) ops in
+  subseq (queue s) (arrivals s) /\ (queue s <> [] -> free (borrowers s) (total s) = false).
+Proof.
+  intros v ops. split.
+  - exact (lim_queue_in_arrival_order v _ (greach_run v ops)).
+  - exact (lim_no_free_token_with_waiters v _ (greach_run v ops)).
+Qed.
+
+Theorem gen_keys_distinct : forall v ops,
+  let s := final (gstep lim_prog) (init v) ops in
+  NoDup (keys (queue s)) /\ (forall b, In b (keys (queue s)) -> ~ In b (borrowers s)) /\ NoDup (borrowers s).
+Proof.
+  intros v ops s.
+  destruct (lim_wait_queue_keys_distinct v s (greach_run v ops)) as (H1 & H2 & _).
+  exact (conj H1 (conj H2 (lim_borrowers_nodup v s (greach_run v ops)))).
+Qed.
+
+Theorem gen_waiting_borrower_rejected : forall s t b,
+  phase_of s t = Idle -> In b (keys (queue s)) -> ~ In b (borrowers s) ->
+  gstep lim_prog s (AcqOn t b) = (s, RRuntime) /\ gstep lim_prog s (AcqOnNowait t b) = (s, RWouldBlock).
+Proof. intros s t b Hp Hq Hb. rewrite !gstep_eq_step. now apply lim_waiting_borrower_rejected. Qed.
+
+Theorem gen_set_total_serves_prefix : forall s t x, phase_of s t = Idle ->
+  let s' := fst (gstep lim_prog s (SetTotal t x)) in
+  s' = set_total s x.
+Proof.
+  intros s t x Hp. rewrite gstep_eq_step. unfold step. cbn [step_gen]. rewrite Hp. reflexivity.
+Qed.
+
+(* ---- non-vacuity and sensitivity (vm_compute) ---- *)
+Definition gfinal (v : option nat) (ops : list op) : st := final (gstep lim_prog) (init v) ops.
+
+Example ex_tie_yield_cancelled_foreign :
+  let s := gfinal (Some 1) [AcqOn 1 11; Cancel 1] in phase_of s 1 = FastYield 11 /\ mustc s 1 = true.
+Proof. vm_compute. split; reflexivity. Qed.
+Example ex_f13_token_returned_for_the_borrower :
+  let s := gfinal (Some 1) [AcqOn 1 11; Cancel 1; Resume 1] in borrowers s = [] /\ resv s = [].
+Proof. vm_compute. split; reflexivity. Qed.
+Example ex_tie_event_resumed :
+  let s := gfinal (Some 1) [AcqOnNowait 1 1; AcqOn 2 2; RelOn 1 1] in
+  phase_of s 2 = Waiting 2 0 /\ evset s 0 = true /\ fcanc s 2 = false /\ mustc s 2 = false.
+Proof. vm_compute. repeat split. Qed.
+Example ex_tie_event_cancelled :
+  let s := gfinal (Some 1) [AcqOnNowait 1 1; AcqOn 2 2; Cancel 2] in
+  phase_of s 2 = Waiting 2 0 /\ fcanc s 2 = true.
+Proof. vm_compute. repeat split. Qed.
+Example ex_tie_event_race :
+  let s := gfinal (Some 1) [AcqOnNowait 1 1; AcqOn 2 2; RelOn 1 1; Cancel 2] in
+  phase_of s 2 = Waiting 2 0 /\ evset s 0 = true /\ mustc s 2 = true.
+Proof. vm_compute. repeat split. Qed.
+Example ex_f16_waiting_borrower_rejected :
+  let s := gfinal (Some 0) [AcqOn 1 7] in
+  snd (gstep lim_prog s (AcqOn 2 7)) = RRuntime /\ fst (gstep lim_prog s (AcqOn 2 7)) = s.
+Proof. vm_compute. split; reflexivity. Qed.
+Example ex_f1_setter_wakes_while_free :
+  let s := gfinal (Some 0) [AcqOn 1 1; AcqOn 2 2; AcqOn 3 3; SetTotal 4 (Some 2)] in
+  length (borrowers s) = 2 /\ length (queue s) = 1 /\ resv s = [2; 1].
+Proof. vm_compute. repeat split. Qed.
+Example ex_check_after_effect_is_stuck :
+  snd (exec (SSeq SAddBorrower SCkIf) 1 (loc_entry (Some 1) None) log0 (core (init (Some 1)))) = OStuck.
+Proof. vm_compute. reflexivity. Qed.
